@@ -55,9 +55,22 @@ func groupFlushes(events []proto.Event, trigger func(op int) string) []*flushInf
 	return out
 }
 
+// oldPageWritten: before write number k of the flush, has a page that existed
+// before the flush (below the allocation frontier the file header names)
+// already been written? Only then can the file hold a reference to a page
+// that is not there yet.
+func oldPageWritten(f *flushInfo, k int) bool {
+	for _, e := range f.events[:k] {
+		if e.K == "page" && e.Off < f.diskFree {
+			return true
+		}
+	}
+	return false
+}
+
 func checkC04(c *core.Ctx) []core.Floor {
 	c.Level = "fault_enumeration"
-	c.Rule = "seeded DDL/DML histories with explicit (timer-equivalent) flushes, CREATE TABLE's flush, close's flush and recovery's own flush; a crash image is taken immediately before EVERY page write and before the header write of EVERY flush (page order = the engine's map iteration order, each history is executed several times to observe different orders). Each image is recovered in a fresh process; every acknowledged table must be exact (a table whose CREATE was in flight is not judged). Second level: crash images are recovered with the hooks armed, giving images inside recovery's own flush. Images of one class are recorded but not judged (known finding, DESIGN.md): a flush that carries a page allocated since the last completed header write, cut after at least one write. Distinct = image; non-trivial = at least one page of the flush had been written and at least one write was still missing."
+	c.Rule = "seeded DDL/DML histories with explicit (timer-equivalent) flushes, CREATE TABLE's flush, close's flush and recovery's own flush; a crash image is taken immediately before EVERY page write and before the header write of EVERY flush (page order = the engine's map iteration order, each history is executed several times to observe different orders). Each image is recovered in a fresh process; every acknowledged table must be exact (a table whose CREATE was in flight is not judged). Second level: crash images are recovered with the hooks armed, giving images inside recovery's own flush. Images of one class are recorded but not judged (known finding, DESIGN.md): a flush that carries a page allocated since the last completed header write, cut after at least one write of a page that existed before (a cut after writes of new pages only leaves the old tree untouched and is judged). Distinct = image; non-trivial = at least one page of the flush had been written and at least one write was still missing."
 	c.Assume = []string{"process-death crash model (completed writes survive; no torn page writes)", "page orders are those the engine produced in the executed runs; orders never produced are not explored"}
 	drv := mustDriver(c, false)
 	n, reps := 150, 3
@@ -208,7 +221,13 @@ func runFlushCrashHist(c *core.Ctx, drv string, ch *crashHist, rep int) {
 			if f.trigger == "create" {
 				j.ignore = ch.stmts[last+1].Table
 			}
-			if f.allocating && pos == "middle" {
+			if f.allocating && pos == "middle" && !oldPageWritten(f, k) {
+				// only pages beyond the old allocation frontier have been
+				// written: nothing in the file refers to them yet, the old
+				// tree is intact - not the known class, judged like any image
+				c.Count("images_allocating_flush_cut_with_only_new_pages_written", 1)
+			}
+			if f.allocating && pos == "middle" && oldPageWritten(f, k) {
 				j.classSig = c04KnownClass
 				c.Count("known_class_images", 1)
 				// recorded, not judged: recover only a sample (each fatal
@@ -268,7 +287,7 @@ func runFlushCrashHist(c *core.Ctx, drv string, ch *crashHist, rep int) {
 						label:  "recovery_" + position(f, k2),
 						replay: map[string]interface{}{"first_crash": sj.replay, "second_crash": map[string]interface{}{"inside": "the flush that ends recovery of the first crash", "writes_of_this_flush": f.events, "crash_before_write": k2, "header_next_free_on_disk": f.diskFree}},
 					}
-					if f.allocating && position(f, k2) == "middle" {
+					if f.allocating && position(f, k2) == "middle" && oldPageWritten(f, k2) {
 						j.classSig = c04KnownClass
 						c.Count("known_class_images", 1)
 						if knownSampled >= 3 {
